@@ -213,7 +213,7 @@ def main():
         # operand signature: the audit was written for this computation of the index / operand (see g1_panic.expr_sig);
         # guards about the site's own operands are always part of the audit
         e = dict(e, ops=g1_panic.site_opsig(A, s), guards=sorted(set(e.get("guards", [])) | set(g1_panic.relevant_guards(A, s))),
-                 rguards=g1_panic.relevant_guards(A, s, precise=True))
+                 rguards=g1_panic.relevant_guards(A, s, precise=True), file=F.bodies[fn]["file"])
         out[key] = e
     json.dump({"_doc": "Audited panic-capable sites: each entry was written after reading the code; `guards` are the dominating guards the argument relies on (the check fails if one disappears); `rguards` are the comparisons / length / variant tests about the site's own operands in canonical form (which expression is compared with which); `ops` is the canonical form of the operands the audit was written for (the check fails if the computation changes). Keys carry no line numbers.",
                "sites": dict(sorted(out.items()))}, open(path, "w"), indent=1)
